@@ -276,9 +276,10 @@ func (trans *Transport) getConn(ctx context.Context) (conn *conn, err error) {
 		trans.lock.Lock()
 		if trans.conns[key] == conn {
 			delete(trans.conns, key)
-			cancel()
 		}
 		trans.lock.Unlock()
+		// the connection is finished whether or not it is still pooled (Abort empties the pool first)
+		cancel()
 	}
 	go conn.Send(ctx, onExit)
 	go conn.Receive(ctx, onExit)
